@@ -42,7 +42,8 @@ Definition comp_names : list (list Z) :=
     [98;97;116;99;104;101;115];                                 (* batches *)
     [99;111;117;110;116;101;114;115];                           (* counters (refined below) *)
     [115;116;97;116;117;115;101;115];                           (* statuses *)
-    [102;101;101;45;114;101;99;111;114;100;115] ].              (* fee-records *)
+    [102;101;101;45;114;101;99;111;114;100;115];                (* fee-records *)
+    [116;111;107;101;110;45;108;105;115;116] ].                  (* token-list *)
 Definition counter_names : list (Z * list Z) :=
   [ (1, [108;97;115;116;45;115;101;110;100;45;105;100]);                                   (* last-send-id *)
     (2, [108;97;115;116;45;98;97;116;99;104;45;110;111;110;99;101]);                       (* last-batch-nonce *)
@@ -78,7 +79,7 @@ Definition mon_C15_hub (c impl : val) : val :=
                                      else [VL [k15 (k_c15_prefix ++ snd cn); VI (Z.of_nat i)]]) counter_names
                        else if same_set (vnth k before) (vnth k after) then []
                        else [VL [k15 (k_c15_prefix ++ snd kn); VI (Z.of_nat i)]])
-                    (combine (seq 0 7) comp_names)
+                    (combine (seq 0 8) comp_names)
          else [])))
     ops (O, []))).
 
